@@ -39,7 +39,9 @@ def to_py(t, s):
 
 def to_text(t, v):
     if t is None:
-        return "void" if v is None else "unexpected:%r" % (v,)
+        # a function without result has nothing to compare (the native target's ctypes
+        # prototype returns an arbitrary int for "void")
+        return "void"
     if v is None:
         return "none"
     try:
